@@ -95,6 +95,7 @@ static _Bool nv_state_uib2(struct nv_state* s, const struct nv_vec* x, double fx
 /* erased scalar numerics (results of <cmath> on values computed from erased vectors) */
 /* std::sqrt / Eigen dot on erased operands: the value is unknown; the call is recorded (argument, result, evaluation count) */
 static double nv_sqrt(double a) { double r = nv_nondet_double(); nv_sqrt_rec.arg = a; nv_sqrt_rec.res = r; nv_sqrt_rec.at = nv_ver_counter; return r; }
+static double nv_sqrt_plain(double a) { return nv_nondet_double(); }
 static double nv_dot(void) { double r = nv_nondet_double(); nv_dot_rec.res = r; nv_dot_rec.at = nv_ver_counter; return r; }
 static double nv_pow(double a, double b) { return nv_nondet_double(); }
 static double nv_exp(double a) { return nv_nondet_double(); }
@@ -173,5 +174,71 @@ static struct nv_tuple_f64_f64 nv_param_kappas(void) { struct nv_tuple_f64_f64 t
 __CPROVER_assigns(state, h, gamma, u, eta, alpha, xb, fb, g, x, x_prime, h_hat, u_hat, u_prime, nv_ver_counter, nv_gcount) \
 __CPROVER_loop_invariant(NV_BEST(state, NV_CONS_VALUE) && NV_BUDGET2(2)) \
 __CPROVER_loop_invariant(xb.id != 0 && NV_SAME(fb, xb.fval)) \
+NV_DECREASES2
+
+/* ---- universal gradient methods pgm / dgm / fgm: an inner "line-search" loop of at most lsearch_max_iters trial
+ * evaluations; the best state is updated only with the triple of the last trial, and only if that trial succeeded */
+static double nv_param_L0(void) { return nv_nondet_double(); }
+#ifndef NV_LS_MAX
+#define NV_LS_MAX 100
+#endif
+static int64_t nv_param_lsearch_max_iters(void) { int64_t p = nv_nondet_int64_t(); __CPROVER_assume(10 <= p && p <= NV_LS_MAX); return p; }
+#define NV_TRIPLE(x, g, f) ((x).id != 0 && NV_SAME(f, (x).fval) && (g).grad_of == (x).id)
+#define NV_INNER_COUNT(k, FPER, GPER) \
+  (nv_ver_counter >= __CPROVER_loop_entry(nv_ver_counter) + (uint64_t)(k) && nv_ver_counter <= __CPROVER_loop_entry(nv_ver_counter) + (FPER) * (uint64_t)(k) \
+   && nv_gcount >= __CPROVER_loop_entry(nv_gcount) + (uint64_t)(k) && nv_gcount <= __CPROVER_loop_entry(nv_gcount) + (GPER) * (uint64_t)(k) && nv_gcount <= nv_ver_counter)
+#define NV_CONTRACT_pgm_do_minimize NV_NONLS_REQUIRES NV_NONLS_ASSIGNS NV_NONLS_ENSURES(NV_CONS_FULL, NV_LS_MAX)
+#define NV_LOOP_pgm_do_minimize_1 \
+__CPROVER_assigns(state, L, xk, xk1, gxk, gxk1, fxk, fxk1, nv_ver_counter, nv_gcount) \
+__CPROVER_loop_invariant(NV_BEST(state, NV_CONS_FULL) && NV_BUDGET2(NV_LS_MAX)) \
+NV_DECREASES2
+#define NV_LOOP_pgm_do_minimize_2 \
+__CPROVER_assigns(k, xk1, gxk1, fxk1, iter_ok, M, nv_ver_counter, nv_gcount) \
+__CPROVER_loop_invariant(0 <= k && k <= lsearch_max_iterations && NV_INNER_COUNT(k, 1, 1) && (iter_ok ==> (k >= 1 && NV_TRIPLE(xk1, gxk1, fxk1)))) \
+__CPROVER_decreases(lsearch_max_iterations - k)
+#define NV_CONTRACT_dgm_do_minimize NV_NONLS_REQUIRES NV_NONLS_ASSIGNS NV_NONLS_ENSURES(NV_CONS_FULL, 2 * NV_LS_MAX)
+#define NV_LOOP_dgm_do_minimize_1 \
+__CPROVER_assigns(state, L, yk, xk1, gxk, gxk1, gphi, fxk1, nv_ver_counter, nv_gcount) \
+__CPROVER_loop_invariant(NV_BEST(state, NV_CONS_FULL) && NV_BUDGET2(2 * NV_LS_MAX)) \
+NV_DECREASES2
+#define NV_LOOP_dgm_do_minimize_2 \
+__CPROVER_assigns(k, xk1, gxk1, fxk1, yk, iter_ok, M, nv_ver_counter, nv_gcount) \
+__CPROVER_loop_invariant(0 <= k && k <= lsearch_max_iterations && NV_INNER_COUNT(k, 2, 1) && (iter_ok ==> (k >= 1 && NV_TRIPLE(xk1, gxk1, fxk1)))) \
+__CPROVER_decreases(lsearch_max_iterations - k)
+#define NV_CONTRACT_fgm_do_minimize NV_NONLS_REQUIRES NV_NONLS_ASSIGNS NV_NONLS_ENSURES(NV_CONS_FULL, 2 * NV_LS_MAX)
+#define NV_LOOP_fgm_do_minimize_1 \
+__CPROVER_assigns(state, L, Ak, ak1, vk, yk, yk1, xk1, gxk1, gyk1, fxk1, fyk1, nv_ver_counter, nv_gcount) \
+__CPROVER_loop_invariant(NV_BEST(state, NV_CONS_FULL) && NV_BUDGET2(2 * NV_LS_MAX)) \
+NV_DECREASES2
+#define NV_LOOP_fgm_do_minimize_2 \
+__CPROVER_assigns(k, ak1, xk1, gxk1, fxk1, yk1, gyk1, fyk1, iter_ok, M, nv_ver_counter, nv_gcount) \
+__CPROVER_loop_invariant(0 <= k && k <= lsearch_max_iterations && NV_INNER_COUNT(2 * k, 1, 1) && (iter_ok ==> (k >= 1 && NV_TRIPLE(yk1, gyk1, fyk1)))) \
+__CPROVER_decreases(lsearch_max_iterations - k)
+
+/* ---- asga2 / asga4: the best state is updated with the triple of the last inner trial, successful or not; at least one
+ * trial is made (lsearch_max_iters >= 10).  A starting point that already passes the gradient test is returned as is. */
+static double nv_param_gamma1(void) { return nv_nondet_double(); }
+static double nv_param_gamma2(void) { return nv_nondet_double(); }
+#define NV_ASGA_LOOP1(VARS) \
+__CPROVER_assigns(state, Lk, Sk, VARS, nv_ver_counter, nv_gcount) \
+__CPROVER_loop_invariant(NV_BEST(state, NV_CONS_FULL) && NV_BUDGET2(2 * NV_LS_MAX)) \
+NV_DECREASES2
+#define NV_ASGA_LOOP2(VARS, X, G, F) \
+__CPROVER_assigns(p, Lk1, sk1, Sk1, iter_ok, VARS, nv_ver_counter, nv_gcount) \
+__CPROVER_loop_invariant(0 <= p && p <= lsearch_max_iters && NV_INNER_COUNT(2 * p, 1, 1) && (iter_ok ==> p >= 1) && (p >= 1 ==> NV_TRIPLE(X, G, F))) \
+__CPROVER_decreases(lsearch_max_iters - p)
+#define NV_CONTRACT_asga2_do_minimize NV_NONLS_REQUIRES NV_NONLS_ASSIGNS NV_NONLS_ENSURES(NV_CONS_FULL, 2 * NV_LS_MAX)
+#define NV_LOOP_asga2_do_minimize_1 NV_ASGA_LOOP1(fxk NV_COMMA xk NV_COMMA xk1 NV_COMMA gxk1 NV_COMMA zk NV_COMMA zk1 NV_COMMA yk NV_COMMA gyk NV_COMMA sum_skgyk)
+#define NV_LOOP_asga2_do_minimize_2 NV_ASGA_LOOP2(yk NV_COMMA gyk NV_COMMA zk1 NV_COMMA xk1 NV_COMMA gxk1 NV_COMMA fxk1, xk1, gxk1, fxk1)
+#define NV_CONTRACT_asga4_do_minimize NV_NONLS_REQUIRES NV_NONLS_ASSIGNS NV_NONLS_ENSURES(NV_CONS_FULL, 2 * NV_LS_MAX)
+#define NV_LOOP_asga4_do_minimize_1 NV_ASGA_LOOP1(fyk NV_COMMA vk NV_COMMA yk NV_COMMA xk1 NV_COMMA yk1 NV_COMMA uk1 NV_COMMA gxk1 NV_COMMA gyk1 NV_COMMA sum_skgk)
+#define NV_LOOP_asga4_do_minimize_2 NV_ASGA_LOOP2(xk1 NV_COMMA gxk1 NV_COMMA uk1 NV_COMMA yk1 NV_COMMA gyk1 NV_COMMA fyk1, yk1, gyk1, fyk1)
+
+/* ---- primal-dual sub-gradient methods sda / wda (one body) */
+static double nv_param_D(void) { return nv_nondet_double(); }
+#define NV_CONTRACT_pdsgm_do_minimize NV_NONLS_REQUIRES NV_NONLS_ASSIGNS NV_NONLS_ENSURES(NV_CONS_FULL, 1)
+#define NV_LOOP_pdsgm_do_minimize_1 \
+__CPROVER_assigns(state, x, gx, nv_ver_counter, nv_gcount) \
+__CPROVER_loop_invariant(NV_BEST(state, NV_CONS_FULL) && NV_BUDGET2(1)) \
 NV_DECREASES2
 #endif
